@@ -401,8 +401,15 @@ def mk_fst(desc, R="Float", exact=False):
         m.add_I(dec_sym(q), mk_w(w, R, exact))
     for q, w in desc["stop"]:
         m.add_F(dec_sym(q), mk_w(w, R, exact))
+    seen = set()
     for i, a, b, j, w in desc["arcs"]:
-        m.add_arc(dec_sym(i), (dec_sym(a), dec_sym(b)), dec_sym(j), mk_w(w, R, exact))
+        key = symkey([i, a, b, j])
+        if desc.get("use_set_arc") and key not in seen and sum(1 for e in desc["arcs"] if symkey(e[:4]) == key) == 1:
+            # the public assigning variant: same machine when the (state, label, state) triple occurs once
+            m.set_arc(dec_sym(i), (dec_sym(a), dec_sym(b)), dec_sym(j), mk_w(w, R, exact))
+        else:
+            m.add_arc(dec_sym(i), (dec_sym(a), dec_sym(b)), dec_sym(j), mk_w(w, R, exact))
+        seen.add(key)
     return m
 
 
